@@ -226,6 +226,9 @@ structure St where
   now : Nat
   store : Store
   nodes : Nat → NodeSt
+  down : List Nat := []      -- nodes whose session manager was shut down (their CrossNodePool is closed)
+  -- lookups in flight: (asking node, client) ↦ what the first storage round trip (the index read) returned
+  pending : FMap (Nat × Nat) (Option Conn) := FMap.empty
 
 def NodeSt.addConn (n : NodeSt) (c : Conn) : NodeSt := { n with conns := add c n.conns, streams := c :: n.streams }
 def NodeSt.dropConn (n : NodeSt) (c : Conn) : NodeSt := { n with conns := rm c n.conns }
@@ -234,16 +237,32 @@ def NodeSt.addCtrl (n : NodeSt) (c : Conn) : NodeSt := { n with ctrl := add c n.
 /-- … and the auth handler accepted (`SetAuthenticated(true)`, `SetClientID`). -/
 def NodeSt.addAuth (n : NodeSt) (c : Conn) : NodeSt := { n with ctrl := add c n.ctrl, authed := add c n.authed }
 
-def St.init : St := ⟨0, FMap.empty, fun _ => NodeSt.empty⟩
+/-- After `onClose`: nothing registered any more, every stream closed (the stream table stays). -/
+def NodeSt.closed (n : NodeSt) : NodeSt := ⟨n.streams, [], [], [], n.conns ++ n.dead, FMap.empty⟩
+
+def St.init : St := ⟨0, FMap.empty, fun _ => NodeSt.empty, [], FMap.empty⟩
 
 def upd (f : Nat → NodeSt) (j : Nat) (n : NodeSt) : Nat → NodeSt := fun i => if i = j then n else f i
+
+/-- The production paths by which a connection ends; all of them reach `CloseConnection`. -/
+inductive CloseKind where
+  | direct      -- `SessionManager.CloseConnection` called directly (WebSocket module, API callers)
+  | eof         -- adapter read loop ended (peer EOF, read error, failed handshake): `BaseAdapter.cleanupConnection`
+  | disconnect  -- client sent a Disconnect command: `handleDisconnectCommand`
+  | sweep       -- heartbeat timeout: `cleanupStaleConnections` → `ClientRegistry.CleanupStale` → callback
+  deriving DecidableEq, Repr
 
 inductive Ev where
   | open (c : Conn)                    -- CreateConnection
   | hs (c : Conn) (ok : Bool)          -- Handshake packet, ConnectionType "control"/"" ; ok = auth outcome
   | hsTunnel (c : Conn) (ok : Bool)    -- Handshake packet, ConnectionType "tunnel"
   | hb (c : Conn)                      -- Heartbeat packet
-  | close (c : Conn)                   -- CloseConnection
+  | close (c : Conn) (k : CloseKind)   -- a connection ends, by one of the paths of `CloseKind`
+  | kick (c : Conn)                    -- KickOldControlConnection(c.client, c): evict the node's other connection of the client
+  | shutdown (n : Nat)                 -- SessionManager.Close / onClose of node `n`
+  -- `FindClientNode(x)` asked on node `j` is two storage round trips; other events may fall between them:
+  | lookBegin (j x : Nat)              -- … the index read (`storage.Get(clientKey)`)
+  | lookEnd (j x : Nat)                -- … the record read (`GetConnectionState`) and the answer
   | tick (dt : Nat)
   deriving DecidableEq, Repr
 
@@ -299,19 +318,85 @@ def closeConnection (P : Params) (st : St) (c : Conn) : St :=
     store := unregisterConnection P st.now st.store c,
     nodes := upd st.nodes c.node (regRemove ((st.nodes c.node).dropConn c) c) }
 
+/-- `handleDisconnectCommand`: ignored unless the registry knows the connection, else `CloseConnection`. -/
+def handleDisconnect (P : Params) (st : St) (c : Conn) : St :=
+  if c ∈ (st.nodes c.node).ctrl then closeConnection P st c else st
+
+/-- `cleanupStaleConnections` with `c` stale: `CleanupStale` drops it from the registry FIRST (`unindexLocked`,
+delete), then the callback runs `CloseConnection(c)`, then the stream is closed. -/
+def sweepStale (P : Params) (st : St) (c : Conn) : St :=
+  if c ∈ (st.nodes c.node).ctrl then
+    closeConnection P { st with nodes := upd st.nodes c.node (regRemove (st.nodes c.node) c) } c
+  else st
+
+/-- `KickOldControlConnection(c.client, c)` → `ClientRegistry.KickOldConnection`: the registry's connection of the
+client, if it is another one, is unindexed, dropped and its stream closed.  No store access. -/
+def kickOld (st : St) (c : Conn) : St :=
+  match FMap.lookup (st.nodes c.node).byClient c.client with
+  | some o => if o ≠ c then { st with nodes := upd st.nodes c.node (regRemove (st.nodes c.node) o) } else st
+  | none => st
+
+/-- `SessionManager.onClose`: registry and connMap emptied, every stream closed.  No store access. -/
+def shutdownNode (st : St) (n : Nat) : St :=
+  { st with nodes := upd st.nodes n (NodeSt.closed (st.nodes n)), down := n :: st.down }
+
+/-- First round trip of `FindClientNode`: the connection id the index names now (`none`: invalid id / no entry —
+the lookup has returned already). -/
+def indexRead (now : Nat) (s : Store) (x : Nat) : Option Conn :=
+  if x = 0 then none else
+  match find now s (.client x) with
+  | none => none
+  | some e =>
+    match e.val with
+    | .id c => some c
+    | .info _ => none
+
+/-- `FindClientNode` is read-only: its two round trips only `Get`.  The model records what the first one saw. -/
+def lookupBegin (st : St) (j x : Nat) : St :=
+  { st with pending := FMap.insert st.pending (j, x) (indexRead st.now st.store x) }
+
+def lookupEnd (st : St) (j x : Nat) : St :=
+  { st with pending := FMap.erase st.pending (j, x) }
+
+/-- Answer of the lookup in flight when its second round trip runs now: the record of the connection READ EARLIER. -/
+def lookupAnswer (P : Params) (st : St) (j x : Nat) : Look :=
+  match FMap.lookup st.pending (j, x) with
+  | some (some c) =>
+    match getConnectionState P st.now st.store c with
+    | .ok i => .found i.nodeID c
+    | .notFound => .notFound
+    | .badType => .badType
+  | _ => .notFound
+
 def step (P : Params) (st : St) : Ev → St
   | .open c => createConnection st c
   | .hs c ok => handleHandshake P st c true ok
   | .hsTunnel c ok => handleHandshake P st c false ok
   | .hb c => handleHeartbeat P st c
-  | .close c => closeConnection P st c
+  | .close c .direct => closeConnection P st c
+  | .close c .eof => closeConnection P st c
+  | .close c .disconnect => handleDisconnect P st c
+  | .close c .sweep => sweepStale P st c
+  | .kick c => kickOld st c
+  | .shutdown n => shutdownNode st n
+  | .lookBegin j x => lookupBegin st j x
+  | .lookEnd j x => lookupEnd st j x
   | .tick dt => { st with now := st.now + dt }
 
-/-- Did the entry point report success?  (`CreateConnection`, `HandlePacket`, `CloseConnection` returned nil.) -/
+/-- What the entry point reported: `CreateConnection` / `HandlePacket` returned nil; for the closes: this call
+closed the connection (the Disconnect command and the sweep ignore a connection the registry does not hold);
+for the end of a split lookup: it answered a connection. -/
 def stepOk (st : St) : Ev → Bool
   | .open c => decide (c ∉ (st.nodes c.node).streams)
   | .hs c ok => ok && (decide (c ∈ (st.nodes c.node).ctrl) || decide (c ∈ (st.nodes c.node).conns)) && decide (c ∉ (st.nodes c.node).dead)
   | .hsTunnel c ok => ok && (decide (c ∈ (st.nodes c.node).ctrl) || decide (c ∈ (st.nodes c.node).conns)) && decide (c ∉ (st.nodes c.node).dead)
+  | .close c .disconnect => decide (c ∈ (st.nodes c.node).ctrl)
+  | .close c .sweep => decide (c ∈ (st.nodes c.node).ctrl)
+  -- the lookup in flight answers a connection (no error) iff the record of the connection it read is visible
+  | .lookEnd j x =>
+    match FMap.lookup st.pending (j, x) with
+    | some (some c) => (find st.now st.store (.conn c)).isSome
+    | _ => false
   | _ => true
 
 /-! ## Observation -/
@@ -321,16 +406,21 @@ inductive Route where
   | cross (n : Nat)    -- forwarded to node `n`
   | none_              -- "target client not connected"
   | incons             -- "state inconsistent (on local node but not found)"
+  | down               -- the asking node was shut down: its routing decision is not observed
   deriving DecidableEq, Repr
 
-/-- Routing decision of `SendCommandToClient` on node `j`. -/
-def route (P : Params) (st : St) (j x : Nat) : Route :=
+/-- Routing decision of `SendCommandToClient` on a running node `j`. -/
+def routeUp (P : Params) (st : St) (j x : Nat) : Route :=
   match FMap.lookup (st.nodes j).byClient x with
   | some _ => .loc
   | none =>
     match findClientNode P st.now st.store x with
     | .found n _ => if n = j then .incons else .cross n
     | _ => .none_
+
+/-- … and the observation of it: a node that was shut down is not asked. -/
+def route (P : Params) (st : St) (j x : Nat) : Route :=
+  if j ∈ st.down then .down else routeUp P st j x
 
 /-- What every node sees for client `x`: (`FindClientNode`, routing decision) per node `0 … nn-1`. -/
 def view (P : Params) (nn : Nat) (st : St) (x : Nat) : List (Look × Route) :=
